@@ -275,3 +275,50 @@ Example C05_ex_mpc8 :
   decode_mpc (build_mpc8 0 9223372036854775807 0 1 32 2 1 3 65535 1 2 3) =
   Ok [8; 8; 2; 48000; 9223372036854775807; 48000; -1; 1; 2; 3].
 Proof. vm_compute. reflexivity. Qed.
+
+(* ================================================================== MPEG Layer III: Xing / Info / LAME / VBRI *)
+Require Import Model.InfoXing Proofs.C05_xing2 Proofs.C05_xing.
+
+(* finite part (vm_compute): for EVERY Layer III header (3 versions x 14 bitrates x 3 rates x 2 padding x 4 modes)
+   a Xing+LAME tag, an Info tag and a VBRI tag placed at the offset the side-information size prescribes are found,
+   and a frame without tag reports an unknown length; see vbr_statement *)
+Theorem C05_mpeg_vbr_all_headers : forall vb bri sri pad mode,
+  In vb [0; 2; 3] -> 1 <= bri <= 14 -> 0 <= sri <= 2 -> 0 <= pad <= 1 -> 0 <= mode <= 3 ->
+  vbr_statement (mkMpeg vb 1 1 bri sri pad 0 mode 0).
+Proof. exact mpeg_vbr_all_headers. Qed.
+Print Assumptions C05_mpeg_vbr_all_headers.
+
+(* symbolic part: all 32-bit frame/byte counts, all 12-bit delay/padding values, every flag combination;
+   duration = (samples per frame * frames - delay - padding) / sample rate, floored at 0 *)
+Theorem C05_mpeg_xing_lame : forall spf sr off pre info frames bytes toc scale vm lp delay padding rest,
+  zlen pre = off -> 0 <= frames < 4294967296 -> opt_u32 bytes -> opt_u32 scale ->
+  0 <= vm < 16 -> 0 <= lp < 256 -> 0 <= delay < 4096 -> 0 <= padding < 4096 ->
+  decode_vbr_tags spf sr off
+    (pre ++ build_xing_tag (mkXing info (Some frames) bytes toc scale) ++ build_lame_tag lame399r vm lp delay padding ++ rest) =
+  [if info then 2 else 1; frames; opt_val bytes; 1; delay; padding; Z.max 0 (spf * frames - delay - padding); sr].
+Proof. exact xing_lame_tag. Qed.
+Print Assumptions C05_mpeg_xing_lame.
+
+Theorem C05_mpeg_xing_plain : forall spf sr off pre info frames bytes toc scale rest,
+  zlen pre = off -> opt_u32 frames -> opt_u32 bytes -> opt_u32 scale -> 0 <= spf ->
+  decode_vbr_tags spf sr off (pre ++ build_xing_tag (mkXing info frames bytes toc scale) ++ repeat 0 36%nat ++ rest) =
+  [if info then 2 else 1; opt_val frames; opt_val bytes; 0; 0; 0;
+   match frames with Some fr => spf * fr | None => -1 end; match frames with Some _ => sr | None => 1 end].
+Proof. exact xing_plain_tag. Qed.
+Print Assumptions C05_mpeg_xing_plain.
+
+Theorem C05_mpeg_vbri : forall spf sr xoff pre delay quality bytes frames entries scale entry_size toc_frames rest,
+  let f := pre ++ build_vbri_tag delay quality bytes frames entries scale entry_size toc_frames ++ rest in
+  zlen pre = 36 ->
+  (zlen (firstn 8 (zdrop_c xoff f)) =? 8) &&
+    (list_eqb (firstn 4 (firstn 8 (zdrop_c xoff f))) ascii_Xing || list_eqb (firstn 4 (firstn 8 (zdrop_c xoff f))) ascii_Info) = false ->
+  0 <= delay < 65536 -> 0 <= quality < 65536 -> 0 <= bytes < 4294967296 -> 0 <= frames < 4294967296 ->
+  0 <= entries < 65536 -> 0 <= scale < 65536 -> (entry_size = 2 \/ entry_size = 4) -> 0 <= toc_frames < 65536 ->
+  decode_vbr_tags spf sr xoff f = [3; frames; bytes; 0; 0; 0; spf * frames; sr].
+Proof. exact vbri_tag. Qed.
+Print Assumptions C05_mpeg_vbri.
+
+Example C05_ex_xing :
+  decode_mpeg_vbr (build_tag_frame (mkMpeg 3 1 1 9 0 0 0 1 0) 36 (build_xing_tag xing_sample_1 ++ lame_sample)) =
+  Ok [128000; 44100; 2; 3; 10; 1; 0; 0; 1152; 417; 1; 1000; 2000000; 1; 576; 1105; 1150319; 44100].
+Proof. vm_compute. reflexivity. Qed.
